@@ -993,6 +993,9 @@ def _resolve_action_conflicts(
                         and winning_event.action_uid
                         and isinstance(competing_event, ActionEvent)
                         and competing_event.action_uid
+                        # (two heads of one flow can reach the very same action object, e.g. the
+                        # or-branches of `start A and (b or c)`: nothing to replace then)
+                        and competing_event.action_uid != winning_event.action_uid
                     ):
                         # All heads that are on the exact same action as the winning head
                         # need to replace their action references with the winning heads action reference
